@@ -21,7 +21,7 @@ PROP = {
     "gen": ["gen_decoder.py", "gen_ops.py"],
     "streams": [{"name": "c03", "join": True, "shards": {"quick": 2, "thorough": 16}}],
     "modules": ["GbVerif.Model.Cache", "GbVerif.Model.Cpu", "GbVerif.Proofs.Enum", "GbVerif.Proofs.InterpMono", "GbVerif.Proofs.InterpFrame", "GbVerif.Proofs.CartFrame", "GbVerif.Proofs.BlockWalk", "GbVerif.Proofs.InterpLen", "GbVerif.Proofs.BusWf"],
-    "rule": "6 cartridges (MBC1 64 banks, MBC3 32, MBC1 4, MBC3 128, MBC1 2, MBC3 2) x 50 (thorough 1700) histories of 10..130 (410) operations: jump to an "
+    "rule": "polling loops (blocks that end where they began) sit at the same address in every bank and are run before and after a bank switch made from outside the block; 6 cartridges (MBC1 64 banks, MBC3 32, MBC1 4, MBC3 128, MBC1 2, MBC3 2) x 50 (thorough 1700) histories of 10..130 (410) operations: jump to an "
             "entry (bank-0 blocks, bank-switching trampolines in bank 0, blocks at equal addresses in every bank, a block running up to "
             "0x3FFF, and in one history of five trampolines inside the switchable bank), run a block, write a bank register; "
             "non-trivial = more than two distinct (bank, address) blocks were translated",
